@@ -47,7 +47,7 @@ func GenTxOps(t *rapid.T, o TxGenOpts) []Op {
 			} else {
 				op.Key = rapid.IntRange(0, 5).Draw(t, "key")
 			}
-			if (k == "get" || k == "getr") && rapid.IntRange(0, 9).Draw(t, "emptyKey") == 0 {
+			if (k == "get" || k == "getr" || k == "del") && rapid.IntRange(0, 9).Draw(t, "emptyKey") == 0 {
 				op.Key = -1 // the empty key: never stored, but the transaction is still looked up first
 			}
 			if k == "set" {
@@ -106,6 +106,9 @@ func GenConflictScenario(t *rapid.T) []Op {
 	nkeys := rapid.IntRange(1, 3).Draw(t, "scKeys")
 	write := func(key int) Op {
 		if rapid.IntRange(0, 4).Draw(t, "scDel") == 0 {
+			if rapid.IntRange(0, 5).Draw(t, "scEmptyKey") == 0 {
+				return Op{K: "del", Key: -1} // the empty key: only Delete accepts it
+			}
 			return Op{K: "del", Key: key}
 		}
 		return Op{K: "set", Key: key, Len: rapid.IntRange(0, 20).Draw(t, "scLen"), Same: rapid.IntRange(0, 5).Draw(t, "scSame") == 0}
